@@ -161,7 +161,10 @@ def fanout_session(report, drv, backend, rng, keys, tag, collide):
                     got_c = [x for x in cnt for _ in range(1 if (x[0] == "EVENT" and cnt[x] <= k) else cnt[x])]
                 if Counter(got_c) != Counter(want_c):
                     report.correspondence_break("%s start_client vs protocol machine (frames of connection %d after message %d: %s)"
-                                                % (backend, c, i, mm["t"]), dict(payload, at=i), [list(x) for x in got_c], [list(x) for x in want_c])
+                                                % (backend, c, i, mm["t"]),
+                                                dict(payload, at=i, stored_at_end=sorted(relay.store.ids()), raw_step=[list(x) for x in real[c]],
+                                                     refusal_reasons=psess.REFUSALS[-6:]),
+                                                [list(x) for x in got_c], [list(x) for x in want_c])
                     corr_ok = False
                     break
         report.count("held_queries", sum(1 for m in run.model_msgs if m.get("hold")))
